@@ -672,7 +672,7 @@ func partC(e *engine) {
 	c.Part("C:smoke", map[string]any{
 		"configurations_in_smoke_set": len(set), "run": ran, "started": started, "a_service_failed_to_start": startFailed,
 		"worker_crashes": crashes, "stop_hangs": stopHang, "worker_timeouts": timeouts, "traffic_operations": opsOrdered,
-		"script":         "per TCP listener: one proxied connection with payload and echo, one garbage connection; per UDP listener: one datagram and its echo, four garbage datagrams (empty, 1 byte, 200 bytes, 1400 zero bytes), for tunnels one reply from a non-target source; then Stop",
+		"script": "per TCP listener: one proxied connection with payload and echo, one garbage connection; per UDP listener: one datagram and its echo, four garbage datagrams (empty, 1 byte, 200 bytes, 1400 zero bytes), for tunnels one reply from a non-target source; then Stop",
 	})
 	for i, o := range outs {
 		if o != nil && !o.crashed && !o.timedOut && i%(max(len(outs)/3, 1)) == 0 {
